@@ -6,8 +6,12 @@ sys.path.insert(0, V)
 props = [json.loads(l) for l in open(V + "/properties.jsonl")]
 NOT_BUILT = json.load(open(V + "/tools/not_applicable.json")) if os.path.exists(V + "/tools/not_applicable.json") else {}
 checks, na, engines = [], [], {}
+ENABLED = json.load(open(V + "/tools/enabled.json"))
 for p in props:
     pid = p["id"]
+    if pid not in ENABLED:
+        na.append({"property_id": pid, "reason": NOT_BUILT.get(pid, "check under construction in this round, not yet validated on the unchanged tree (plan: DESIGN.md section 4)")})
+        continue
     try:
         mod = importlib.import_module("props." + pid.lower())
     except ModuleNotFoundError:
